@@ -124,8 +124,9 @@ func (f *fixedTime) ProcessDocuments(ctx context.Context, rt time.Time, rn func(
 
 // reader delivering the body in small pieces (exercises bufio's fill loop)
 type chunkReader struct {
-	b []byte
-	n int
+	b     []byte
+	n     int
+	eager bool // report io.EOF together with the last bytes (as e.g. a gzip reader does)
 }
 
 func (c *chunkReader) Read(p []byte) (int, error) {
@@ -135,6 +136,9 @@ func (c *chunkReader) Read(p []byte) (int, error) {
 	k := min(c.n, len(p), len(c.b))
 	copy(p, c.b[:k])
 	c.b = c.b[k:]
+	if c.eager && len(c.b) == 0 {
+		return k, io.EOF
+	}
 	return k, nil
 }
 
@@ -193,6 +197,7 @@ type request struct {
 	NowNs    int64     `json:"now_ns"`
 	Gzip     bool      `json:"gzip"`
 	Chunk    int       `json:"chunk"`
+	Eager    bool      `json:"eager_eof"`
 	BodyHex  string    `json:"body_hex"`
 	BodyText string    `json:"body_text"`
 	Docs     []docMeta `json:"docs,omitempty"`
@@ -262,11 +267,11 @@ func (e *env) serve(rq *request, emit func(record)) *observation {
 		raw = zb.Bytes()
 		hdr = "gzip"
 	}
-	if rq.Chunk > 0 {
-		rd = &chunkReader{b: raw, n: rq.Chunk}
-	} else {
-		rd = bytes.NewReader(raw)
+	ch := rq.Chunk
+	if ch <= 0 {
+		ch = len(raw) + 1
 	}
+	rd = &chunkReader{b: raw, n: ch, eager: rq.Eager && !rq.Gzip}
 	hr := httptest.NewRequest(http.MethodPost, "/_bulk", rd)
 	if hdr != "" {
 		hr.Header.Set("Content-Encoding", hdr)
@@ -388,6 +393,8 @@ func rfcOracle(v string) *big.Int {
 	return nil
 }
 
+func hxb(b []byte) string { return "(hx \"" + hex.EncodeToString(b) + "\")" }
+
 func coqZ(x *big.Int) string { return "(" + x.String() + ")%Z" }
 
 func coqOptZ(x *big.Int) string {
@@ -448,14 +455,14 @@ func buildTable(rq *request, emit func(record)) (string, bool, bool) {
 		tf := timeFields(line, known)
 		var fs []string
 		for _, v := range tf {
-			fs = append(fs, "("+casefile.Bytes([]byte(v))+", "+coqOptZ(rfcOracle(v))+")")
+			fs = append(fs, "("+hxb([]byte(v))+", "+coqOptZ(rfcOracle(v))+")")
 		}
 		intended := "None"
 		if m, okk := known[string(line)]; okk && m.Intended != nil {
 			x, _ := new(big.Int).SetString(*m.Intended, 10)
 			intended = coqOptZ(x)
 		}
-		entries = append(entries, fmt.Sprintf("(%s, Build_docinfo %s [%s] %s)", casefile.Bytes(line), cls, strings.Join(fs, "; "), intended))
+		entries = append(entries, fmt.Sprintf("(%s, Build_docinfo %s [%s] %s)", hxb(line), cls, strings.Join(fs, "; "), intended))
 	}
 	for _, raw := range bytes.Split(rq.body, []byte{'\n'}) {
 		add(raw)
@@ -470,11 +477,11 @@ func caseTerm(e *env, rq *request, o *observation, table string) string {
 	c := driftCfgs[rq.Cfg]
 	var st []string
 	for _, s := range o.stored {
-		st = append(st, fmt.Sprintf("(%s, ((%d)%%Z, %d))", casefile.Bytes(s.doc), s.mid, s.size))
+		st = append(st, fmt.Sprintf("(%s, ((%d)%%Z, %d))", hxb(s.doc), s.mid, s.size))
 	}
-	return fmt.Sprintf("CBulk %d (%d)%%Z (%d)%%Z (%d)%%Z %s %s (Build_impl %s %d %d %d [%s] %s)",
-		e.B, rq.NowNs, int64(c.drift), int64(c.fdrift), casefile.Bytes(rq.body), table,
-		casefile.Bool(o.Status/100 == 2), o.Created, o.Calls, o.Total, strings.Join(st, "; "), casefile.Bytes(o.payload))
+	return fmt.Sprintf("CBulk %s %d (%d)%%Z (%d)%%Z (%d)%%Z %s %s (Build_impl %s %d %d %d [%s] %s)",
+		casefile.Bool(rq.Eager), e.B, rq.NowNs, int64(c.drift), int64(c.fdrift), hxb(rq.body), table,
+		casefile.Bool(o.Status/100 == 2), o.Created, o.Calls, o.Total, strings.Join(st, "; "), hxb(o.payload))
 }
 
 // ---------------------------------------------------------------- generators
@@ -632,8 +639,9 @@ func (g *gen) renderTime(t time.Time) (string, time.Time, string) {
 	}
 	ns := int64(t.Nanosecond()) / unit * unit
 	t = time.Date(t.Year(), t.Month(), t.Day(), t.Hour(), t.Minute(), t.Second(), int(ns), time.UTC)
-	s := t.In(g.zone()).Format("2006-01-02T15:04:05") + "." + pad(int(ns/unit), nd)
-	z := t.In(g.zone()).Format("Z07:00")
+	zn := g.zone()
+	s := t.In(zn).Format("2006-01-02T15:04:05") + "." + pad(int(ns/unit), nd)
+	z := t.In(zn).Format("Z07:00")
 	return s + z, t, "rfc3339nano"
 }
 
@@ -651,25 +659,30 @@ var garbageTimes = []string{"junk", "2026-13-45 00:00:00", "2026-09-25", "2026-0
 	"2026-09-25 12:00:00.", "2026-09-25 12:00:00,5", "2026/09/25 12:00:00", "2026-09-25 24:00:00", "2026-00-10 00:00:00", "2026-09-25 12:00:0x",
 	"2026-09-25  12:00:00", "26-09-25 12:00:00", "2026-09-25 12:00:00.12a", "2026-09-25T12:00:00+3", "2026-09-25 12:00:00Z"}
 
-// delay (= now - t) values around the configured boundaries
-func (g *gen) pickDelay() time.Duration {
+// document instants: delays (= now - t) around the configured boundaries, and far away
+func (g *gen) pickInstant() time.Time {
 	r := g.r
 	c := driftCfgs[g.cfg]
 	eps := rng.Pick(r, []time.Duration{0, 1, -1, time.Millisecond, -time.Millisecond, time.Microsecond, -time.Microsecond, time.Second, -time.Second})
 	switch r.Intn(8) {
 	case 0, 1:
-		return c.drift + eps
+		return g.now.Add(-(c.drift + eps))
 	case 2, 3:
-		return -c.fdrift + eps
+		return g.now.Add(-(-c.fdrift + eps))
 	case 4:
-		return eps
+		return g.now.Add(-eps)
 	case 5:
-		return time.Duration(r.Intn(7200_000)-3600_000) * time.Millisecond
-	case 6: // far, but inside the range of time.Duration from now and of UnixNano
-		y := time.Duration(r.Range(-190, 190))
-		return y*365*24*time.Hour + time.Duration(r.Intn(1e9))
+		return g.now.Add(-time.Duration(r.Intn(7200_000)-3600_000) * time.Millisecond)
+	case 6:
+		g.feat["time-far"] = true
+		if g.cfg == 3 {
+			// the 200-year window: stay after 1970 (MID is unsigned) and inside UnixNano's range
+			return g.now.AddDate(r.Range(-50, 190), 0, 0).Add(time.Duration(r.Intn(1e9)))
+		}
+		// any year 0..9999: beyond time.Duration in both directions, beyond UnixNano
+		return time.Date(r.Range(0, 9999), time.Month(r.Range(1, 12)), r.Range(1, 28), r.Intn(24), r.Intn(60), r.Intn(60), r.Intn(1e9), time.UTC)
 	}
-	return time.Duration(int64(r.U64()%uint64(2*time.Hour))) - time.Hour
+	return g.now.Add(-(time.Duration(int64(r.U64()%uint64(2*time.Hour))) - time.Hour))
 }
 
 // a document with time fields; returns doc bytes
@@ -686,7 +699,7 @@ func (g *gen) timeDoc(minimal bool) string {
 		}
 		switch c := r.Intn(p + 3); {
 		case c < 2: // valid
-			t := g.now.Add(-g.pickDelay())
+			t := g.pickInstant()
 			if t.Year() < 0 || t.Year() > 9999 {
 				continue
 			}
@@ -887,22 +900,27 @@ func (g *gen) body(mode string) ([]byte, string) {
 	return sb.Bytes(), class
 }
 
-// does the reader's skip loop hit io.EOF exactly at the end of an unterminated over-size tail?
-func tailExact(body []byte, B int) (oversize, exact bool) {
+// unterminated over-size last line: does the reader's chunking (with a reader reporting EOF by a
+// separate empty read) end exactly at the end of the body (exact), and is there a moment where
+// exactly one buffer of bytes remains, so that the outcome depends on how EOF is reported (edge)?
+func tailExact(body []byte, B int) (oversize, exact, edge bool) {
 	i := bytes.LastIndexByte(body, '\n')
 	tail := body[i+1:]
 	if len(tail) < B {
-		return false, false
+		return false, false, false
 	}
 	pos := 0
 	for len(tail)-pos >= B {
+		if len(tail)-pos == B {
+			edge = true
+		}
 		if tail[pos+B-1] == '\r' {
 			pos += B - 1
 		} else {
 			pos += B
 		}
 	}
-	return true, len(tail)-pos == 0
+	return true, len(tail)-pos == 0, edge
 }
 
 // ---------------------------------------------------------------- worker
@@ -923,8 +941,8 @@ func runOne(e *env, rq *request, feat map[string]bool, emit func(record)) {
 	if o == nil {
 		return
 	}
-	if over, exact := tailExact(rq.body, e.B); over {
-		if exact {
+	if over, exact, _ := tailExact(rq.body, e.B); over {
+		if exact && !rq.Eager {
 			rq.Class = "oversize-tail-exact"
 		} else if !strings.HasPrefix(rq.Class, "time-") && !strings.HasPrefix(rq.Class, "estime-") {
 			rq.Class = "oversize-tail"
@@ -969,6 +987,13 @@ func worker(spec workerSpec, out io.Writer) {
 			BodyText: fmt.Sprintf("%q", body), Docs: g.docs, Class: class, body: body}
 		if r.Chance(1, 3) {
 			rq.Chunk = r.Range(1, 40)
+		}
+		rq.Eager = r.Bool()
+		if _, _, edge := tailExact(body, e.B); edge {
+			// how a gzip reader reports EOF is its own business: keep the edge to the plain reader
+			rq.Gzip = false
+		} else if rq.Gzip {
+			rq.Eager = true
 		}
 		runOne(e, rq, g.feat, emit)
 	}
